@@ -101,6 +101,8 @@ pub struct Mon {
     /// how many connection objects an endpoint created for a pair id (duplicated Initials can
     /// create zombies)
     pub pair_creations: BTreeMap<(usize, u64), u32>,
+    /// pairs one of whose sides called close()
+    pub closed_pairs: BTreeSet<u64>,
 }
 
 /// Packets of a delivered datagram that are certainly genuine: those lying entirely inside the
@@ -179,6 +181,7 @@ impl Mon {
             dgram_arrivals: BTreeMap::new(),
             last_reset_ns: BTreeMap::new(),
             pair_creations: BTreeMap::new(),
+            closed_pairs: BTreeSet::new(),
         }
     }
 
@@ -253,8 +256,25 @@ impl Mon {
 
     pub fn before_deliver(&mut self, _ei: usize, _d: &Dgram, _ep: &Ep) {}
 
-    pub fn after_deliver(&mut self, ei: usize, d: &Dgram, ch: Option<usize>, _ep: &Ep, _led: &mut Ledger) {
+    pub fn after_deliver(&mut self, ei: usize, d: &Dgram, ch: Option<usize>, ep: &Ep, _led: &mut Ledger) {
         self.cnt.inc("net.delivered");
+        // C09: a genuine datagram produced by connection X may only reach X's own peer
+        if let (Some((oe, och)), Some(rch), false) = (d.origin, ch, d.forged) {
+            let from_pair = d.opair;
+            let to_pair = self.conns.get(&(ei, rch)).map(|c| c.pair);
+            self.cnt.inc("c09.routing_checks");
+            if let (Some(a), Some(b)) = (from_pair, to_pair) {
+                let to_forgotten = ep.conns.get(&rch).map_or(true, |c| c.forgotten);
+                // an endpoint with zero-length CIDs routes by address tuple: the connection that
+                // owns the tuple legitimately receives whatever arrives from it
+                if a != b && !to_forgotten && ep.spec.cid_len != 0 {
+                    self.violate(
+                        "C09",
+                        format!("endpoint {ei} handed a datagram of connection pair {a:x} (from {oe}/{och}) to handle {rch} which belongs to pair {b:x}"),
+                    );
+                }
+            }
+        }
         match ch {
             Some(ch) => {
                 if let Some(cm) = self.conns.get_mut(&(ei, ch)) {
@@ -934,6 +954,7 @@ impl Mon {
     pub fn on_set_receive_window(&mut self, _ei: usize, _ch: usize, _v: u64) {}
 
     pub fn on_local_close(&mut self, ei: usize, ch: usize, _conn: &Conn, now: u64, code: u64, reason: &[u8]) {
+        self.closed_pairs.insert(_conn.pair);
         if let Some(cm) = self.conns.get_mut(&(ei, ch)) {
             cm.local_close = Some((now, code, reason.to_vec()));
             cm.closed_seen_ns.get_or_insert(now);
